@@ -2,6 +2,7 @@ package rules
 
 import (
 	"fmt"
+	"go/constant"
 	"go/token"
 	"go/types"
 	"sort"
@@ -167,7 +168,7 @@ func runC04(c *Ctx) {
 	P, R := c.P, c.R
 	R.Require("C04.lock", 4)
 	R.Require("C04.order", 1)
-	R.Require("C04.txn", 3)
+	R.Require("C04.txn", 4)
 	R.Require("C04.own", 3)
 
 	proto := P.NamedType("rtmp", "Protocol")
@@ -419,6 +420,17 @@ func checkTxn(c *Ctx, rule string) {
 	}
 	if nLookups == 0 {
 		R.Fail(rule, "rtmp|transactions|lookup", "?", "no lookup of Protocol.input.transactions found in package rtmp", nil)
+	}
+	// both response commands (_result and _error) are typed by the outstanding request
+	if parse := P.Func("rtmp", "(*Protocol).parseAMFObject"); parse != nil {
+		if sw := P.SwitchOnType(parse, "amf0.String"); sw != nil {
+			r1 := sw.CaseFor(constant.MakeString("_result"))
+			r2 := sw.CaseFor(constant.MakeString("_error"))
+			same := r1 != nil && r2 != nil && r1.Clause == r2.Clause
+			R.Check(same, rule, "rtmp|(*Protocol).parseAMFObject|result-and-error", P.Pos(sw.Stmt.Pos()),
+				"_result and _error are both matched to the outstanding request",
+				"_result and _error are not handled by the same transaction-matching branch: a rejected request stays registered and a later response with its id is matched to it", nil)
+		}
 	}
 }
 
